@@ -299,7 +299,7 @@ package saml2
 //@   requires [C10, C04] zero.logoutrequest: obj is *LogoutRequest ==> *obj.(*LogoutRequest) == LogoutRequest{}
 //@   requires [C07] zero.encrypted: obj is *types.EncryptedAssertion ==> *obj.(*types.EncryptedAssertion) == types.EncryptedAssertion{}
 //@   safety [C09]
-//@   assigns *obj, el.parent.Child, el.parent, el.index
+//@   assigns *obj, el.parent.Child, el.parent, el.index, all etree.Document.$root
 //@   ensures [C01, C04] src.response: err == nil && obj is *types.Response ==> obj.(*types.Response).$src == el
 //@   ensures [C01, C04] src.assertion: err == nil && obj is *types.Assertion ==> obj.(*types.Assertion).$src == el
 //@   ensures [C10, C04] src.logoutresponse: err == nil && obj is *types.LogoutResponse ==> obj.(*types.LogoutResponse).$src == el
